@@ -49,10 +49,15 @@ func (bb *DefaultBallotBroadcaster) Ballot(
 func (bb *DefaultBallotBroadcaster) Broadcast(bl base.Ballot) error {
 	l := bb.Log().With().Interface("ballot", bl).Logger()
 
-	if err := bb.set(bl); err != nil {
+	switch stored, err := bb.set(bl); {
+	case err != nil:
 		l.Error().Err(err).Msg("failed to set ballot")
 
 		return err
+	case stored != nil:
+		// NOTE local already has the ballot of this stage point; only that
+		// one is broadcasted.
+		bl = stored //revive:disable-line:modifies-parameter
 	}
 
 	if err := bb.broadcastFunc(bl); err != nil {
@@ -66,17 +71,33 @@ func (bb *DefaultBallotBroadcaster) Broadcast(bl base.Ballot) error {
 	return nil
 }
 
-func (bb *DefaultBallotBroadcaster) set(bl base.Ballot) error {
+// set keeps the first ballot of local for the stage point; if local already
+// has one, it is returned.
+func (bb *DefaultBallotBroadcaster) set(bl base.Ballot) (base.Ballot, error) {
 	bb.l.Lock()
 	defer bb.l.Unlock()
 
 	if !bl.SignFact().Node().Equal(bb.local) {
-		return nil
+		return nil, nil
 	}
 
-	if _, err := bb.pool.SetBallot(bl); err != nil {
-		return errors.WithMessage(err, "set ballot to pool")
+	switch isnew, err := bb.pool.SetBallot(bl); {
+	case err != nil:
+		return nil, errors.WithMessage(err, "set ballot to pool")
+	case isnew:
+		return nil, nil
 	}
 
-	return nil
+	switch stored, found, err := bb.pool.Ballot(
+		bl.Point().Point,
+		bl.Point().Stage(),
+		isaac.IsSuffrageConfirmBallotFact(bl.SignFact().Fact()),
+	); {
+	case err != nil:
+		return nil, errors.WithMessage(err, "get ballot from pool")
+	case !found:
+		return nil, nil
+	default:
+		return stored, nil
+	}
 }
